@@ -1,5 +1,8 @@
 import Mochi.Model.Broker
 import Mochi.Props.C08
+import Mochi.Lemmas.BrokerSurvive
+import Mochi.Lemmas.BrokerResend
+import Mochi.Props.C09Demo
 /-!
 # C09 — Unacknowledged QoS 1/2 messages survive reconnection until acknowledged
 
@@ -10,6 +13,23 @@ message is gone.
 Known finding F09 (recorded): after a message deferred by flow control is finally written,
 `processPacket` deletes its in-flight record (`nextImmediate`), so it is neither awaited nor
 redelivered.  Partial: schedules.
+
+## The record of an unacknowledged exchange survives every op that does not end it (all 12 op kinds)
+
+Definitions (`Mochi/Lemmas/BrokerSurviveDefs.lean`): `Holds s cid k payload` — the object REGISTERED under `cid` has an
+in-flight record under packet identifier `k` that is the PUBLISH (type 3) with that payload or the PUBREL (type 6)
+`processPubrec` put in its place, and is not a record deferred by flow control (`0 ≤ expiry`; F09);
+`Ends s cid k op` (decidable) — the ops that may legitimately end the exchange in state `s`.
+Theorems (below): `C09_record_survives_step` (every op kind, schedule ops included — no `SchedOK` needed for the step
+itself; `SyncInv` is only used for `release` of a CONNECT parked in the authentication hook),
+`C09_record_survives_run` / `C09_record_survives_history` (op lists), `C09_resume_resends` (what a resumption
+resends: PUBLISH with DUP for a PUBLISH record; PUBREL — and, in the resend loop, no PUBLISH with that identifier — for a
+PUBREL record).  Non-vacuity and the F09 counterexample by `decide`: `Mochi/Props/C09Demo.lean`.
+Go behaviour behind the two clauses of the definitions that are not in the property text: F09 — `processPacket`
+(server.go:732-741) writes the next deferred message (`NextImmediate`, inflight.go:85/100: `Expiry < 0`) and then
+`Inflight.Delete`s it; F10 — `processPublish` (server.go:920-929) looks the CLIENT's packet identifier up in the same
+`cl.State.Inflight` map that holds the server's outbound records and deletes whatever is there (unless it is a PUBREC);
+`processPubrel` (server.go:1235-1257) likewise.  Both are faithful to the Go code, not model artefacts.
 -/
 namespace Mochi.Broker
 open Mochi.Topics
@@ -64,5 +84,165 @@ theorem C09_after_pubrec (s : Server) (i id rc : Nat) (m : Msg) (hi : i < s.objs
 
 /-- an acknowledged message is removed and therefore never resent -/
 theorem C09_acked_gone (c : Client) (id : Nat) : flGet (flDelete c id).1 id = none := C08_pubrel_releases c id
+
+/-! ### the record survives every op that does not end the exchange -/
+
+/-- **C09, one op.**  In a well-formed state, the session registered under `cid` holds the record of exchange `k`
+    (payload `p`) after EVERY op — of any of the 12 kinds — that is not one of the ops `Ends s cid k` lists: after a
+    resumption / take-over (`connect … {clean := false}`) the record is in the NEW object; publishes by other clients,
+    drops, ticks and the schedule ops leave it where it is. -/
+theorem C09_record_survives_step (s : Server) (op : Op) (cid : Str) (k : Nat) (p : Str) (hw : WF s)
+    (hsync : SyncInv s) (hf : OpFresh s op) (h : Holds s cid k p) (hne : ¬ Ends s cid k op) :
+    Holds (step s op).1 cid k p := by
+  cases op with
+  | connect conn k' => exact step_connect_holds k p cid s conn k' hw hf h hne
+  | connectHold conn k' stage => exact step_connectHold_holds k p cid s conn k' stage hw hf h hne
+  | release conn => exact step_release_holds k p cid s conn hw hsync h hne
+  | recv conn pk => obtain ⟨i, h⟩ := h; exact (step_recv_holds k p cid s conn pk i hw h hne).holds
+  | recvCut conn pk => obtain ⟨i, h⟩ := h; exact (step_recvCut_holds k p cid s conn pk i hw h hne).holds
+  | drop conn => obtain ⟨i, h⟩ := h; exact (step_drop_holds k p cid s conn i hw h hne).holds
+  | dropHold conn => obtain ⟨i, h⟩ := h; exact (step_dropHold_holds k p cid s conn i h).holds
+  | dropHoldEarly conn => obtain ⟨i, h⟩ := h; exact (step_dropHoldEarly_holds k p cid s conn i h).holds
+  | tick kind t => obtain ⟨i, h⟩ := h; exact (step_tick_holds k p cid s kind t i hw h hne).holds
+  | inlinePublish topic payload retain qos =>
+    obtain ⟨i, h⟩ := h; exact (step_inlinePublish_holds k p cid s topic payload retain qos i hw h hne).holds
+  | inlineSubscribe id filter => obtain ⟨i, h⟩ := h; exact (step_inlineSubscribe_holds k p cid s id filter i h).holds
+  | inlineUnsubscribe id filter =>
+    obtain ⟨i, h⟩ := h; exact (step_inlineUnsubscribe_holds k p cid s id filter i h).holds
+
+/-- no op of the history ends exchange `k` of `cid` in the state it is applied to (threaded like `OpsFresh`) -/
+def NoEnds (s : Server) (cid : Str) (k : Nat) : List Op → Prop
+  | [] => True
+  | op :: ops => ¬ Ends s cid k op ∧ NoEnds (step s op).1 cid k ops
+
+instance instDecidableNoEnds (s : Server) (cid : Str) (k : Nat) (ops : List Op) : Decidable (NoEnds s cid k ops) :=
+  match ops with
+  | [] => isTrue trivial
+  | op :: ops =>
+    match (inferInstance : Decidable (¬ Ends s cid k op)) with
+    | isFalse h => isFalse (fun g => h g.1)
+    | isTrue h =>
+      match instDecidableNoEnds (step s op).1 cid k ops with
+      | isFalse g => isFalse (fun g' => g g'.2)
+      | isTrue g => isTrue ⟨h, g⟩
+
+/-- **C09, op lists.** -/
+theorem C09_record_survives_run (s : Server) (ops : List Op) (cid : Str) (k : Nat) (p : Str) (hw : WF s)
+    (hsync : SyncInv s) (hf : OpsFresh s ops) (hok : OpsSchedOK s ops) (h : Holds s cid k p)
+    (hne : NoEnds s cid k ops) : Holds (run s ops) cid k p := by
+  induction ops generalizing s with
+  | nil => exact h
+  | cons op ops ih =>
+    show Holds (run (step s op).1 ops) cid k p
+    exact ih _ (WF_step s op hw hf.1) (SyncInv_step s op hsync hw hf.1 hok.1) hf.2 hok.2
+      (C09_record_survives_step s op cid k p hw hsync hf.1 h hne.1) hne.2
+
+theorem run_append_sv (s : Server) (a b : List Op) : run s (a ++ b) = run (run s a) b := by
+  unfold run; rw [List.foldl_append]
+
+theorem OpsFresh_app {s : Server} {a b : List Op} (h : OpsFresh s (a ++ b)) : OpsFresh s a ∧ OpsFresh (run s a) b := by
+  induction a generalizing s with
+  | nil => exact ⟨trivial, h⟩
+  | cons x xs ih =>
+    obtain ⟨h1, h2⟩ := ih h.2
+    exact ⟨⟨h.1, h1⟩, h2⟩
+
+theorem OpsSchedOK_app {s : Server} {a b : List Op} (h : OpsSchedOK s (a ++ b)) :
+    OpsSchedOK s a ∧ OpsSchedOK (run s a) b := by
+  induction a generalizing s with
+  | nil => exact ⟨trivial, h⟩
+  | cons x xs ih =>
+    obtain ⟨h1, h2⟩ := ih h.2
+    exact ⟨⟨h.1, h1⟩, h2⟩
+
+/-- **C09, histories from the initial state**: once the session holds the record (after `pre`), it holds it after any
+    continuation `ops` none of whose ops ends the exchange — through disconnections, resumptions and take-overs. -/
+theorem C09_record_survives_history (caps : Caps) (pre ops : List Op) (cid : Str) (k : Nat) (p : Str)
+    (hf : OpsFresh (init caps) (pre ++ ops)) (hok : OpsSchedOK (init caps) (pre ++ ops))
+    (h : Holds (run (init caps) pre) cid k p) (hne : NoEnds (run (init caps) pre) cid k ops) :
+    Holds (run (init caps) (pre ++ ops)) cid k p := by
+  rw [run_append_sv]
+  obtain ⟨f1, f2⟩ := OpsFresh_app hf
+  obtain ⟨o1, o2⟩ := OpsSchedOK_app hok
+  exact C09_record_survives_run _ ops cid k p (WF_run caps pre f1) (SyncInv_run caps pre f1 o1) f2 o2 h hne
+
+/-- `Ends` identifies "a connection of `cid`" by the client id of the connection's object.  In every state of a
+    history (`SyncInv`) and for a connection whose handler is not parked (`FreeConn`, what `SchedOK` asks of `recv`),
+    such a connection that is still open IS the registered session's: an inbound packet `Ends` counts acts on the
+    object that holds the record. -/
+theorem C09_ends_recv_is_registered (s : Server) (cid : Str) (k conn : Nat) (pk : InPk) (b : Bool) (hw : WF s)
+    (hsync : SyncInv s) (hfree : FreeConn s conn) (h : EndsRecv s cid k conn pk b) :
+    ∃ j, assocGet s.connOf conn = some j ∧ assocGet s.clients cid = some j := by
+  unfold EndsRecv at h
+  cases hc : assocGet s.connOf conn with
+  | none => rw [hc] at h; exact h.elim
+  | some j =>
+    rw [hc] at h
+    obtain ⟨hid, hopen, _⟩ := h
+    have hj : j < s.objs.length := hw.conn_valid conn j (assocGet_mem _ _ _ hc)
+    have hst : (getObj s j).stopped = false := by
+      have := hsync.os j
+      rw [hopen] at this
+      cases hs : (getObj s j).stopped with
+      | false => rfl
+      | true => rw [hs] at this; cases this
+    have := hsync.registered_of_live hj (hfree.free hc) (fun x => x) hst
+    rw [hid] at this
+    exact ⟨j, rfl, this⟩
+
+/-! ### what a resumption resends -/
+
+/-- **C09, the resend.**  A `connect` op for `cid` that is admitted and does not discard the session (no Clean Start,
+    the old session not an MQTT 3 clean one), in a state where the session holds the record `m` of exchange `k`:
+    * `m` a PUBLISH (type 3): its payload is `p`, and the op's outputs contain, on the NEW connection, that PUBLISH with
+      the DUP flag set (same packet identifier, same payload — `{ m with dup := true }`);
+    * `m` a PUBREL (type 6): the op's outputs contain `PUBREL k` on the new connection; and the outputs of
+      `attachClient` are `pre ++ resent`, `resent` being the outputs of `ResendInflightMessages`, which contain NO
+      PUBLISH with packet identifier `k` (`pre` — DISCONNECT to the taken-over connection, CONNACK, what the taken-over
+      handler's will publishes — is not analysed here: a will delivered to the resuming session gets a fresh packet
+      identifier). -/
+theorem C09_resume_resends (s : Server) (conn : Nat) (k' : Connect) (cid : Str) (k : Nat) (p : Str) (hw : WF s)
+    (hf : OpFresh s (.connect conn k')) (h : Holds s cid k p) (hid : k'.id = cid)
+    (hadm : refuseCode s k' (parseConnect s conn k') = none) (hne : ¬ EndsTakeover s cid k') :
+    ∃ i m, assocGet s.clients cid = some i ∧ flGet (getObj s i) k = some m ∧
+      (m.type = 3 → m.payload = p ∧
+        Out.wrote conn (.publish k'.ver { m with dup := true } (m.expiry > 0 || m.msgExpiry > 0)) ∈
+          (step s (.connect conn k')).2) ∧
+      (m.type = 6 →
+        Out.wrote conn (.ack k'.ver 6 k m.reasonCode) ∈ (step s (.connect conn k')).2 ∧
+        ∃ pre s3, (connect s conn k').2 = pre ++ (admitC s3 s.objs.length k' true).2 ∧
+          ∀ c ver m' me, Out.wrote c (.publish ver m' me) ∈ (admitC s3 s.objs.length k' true).2 → m'.id ≠ k) := by
+  obtain ⟨i, hi, m, hm, hok⟩ := h
+  have hE : ¬ (k'.clean = true ∨ ((getObj s i).clean && decide ((getObj s i).ver < 5)) = true) := by
+    intro x
+    apply hne
+    refine ⟨hid, ?_⟩
+    rcases x with x | x
+    · exact Or.inl x
+    · right
+      rw [hi]
+      exact x
+  have hcl : k'.clean = false := Bool.eq_false_iff.mpr (fun e => hE (Or.inl e))
+  have h3 : ((getObj s i).clean && decide ((getObj s i).ver < 5)) = false :=
+    Bool.eq_false_iff.mpr (fun e => hE (Or.inr e))
+  obtain ⟨pre, s3, hsplit, hm3, hwf3, ho, hin, hpg, hconn, hver⟩ :=
+    connect_resend_split k s conn k' i m hw hf (by rw [hid]; exact hi) hm hadm hcl h3
+  have R := admitC_resends s3 s.objs.length k' k m hm3 ho hin hpg
+  rw [hconn, hver] at R
+  refine ⟨i, m, hi, hm, fun ht => ⟨?_, ?_⟩, fun ht => ⟨?_, pre, s3, hsplit, ?_⟩⟩
+  · have : recOk m p = true := hok
+    simp [recOk, ht] at this
+    exact this.2
+  · exact step_connect_out_sub _ _ _ _ (by rw [hsplit]; exact List.mem_append_right _ (R.1 ht))
+  · have h6 : m.type ≠ 3 := by rw [ht]; decide
+    have := R.2 h6
+    rw [ht] at this
+    exact step_connect_out_sub _ _ _ _ (by rw [hsplit]; exact List.mem_append_right _ this)
+  · exact admitC_no_publish s3 s.objs.length k' k m hwf3 hm3 (by rw [ht]; decide)
+
+/-- the history of `Mochi/Props/C09Demo.lean` is an instance: from the delivery (op 3) to just before the PUBCOMP
+    (op 9) no op ends the exchange -/
+theorem C09_demo_noEnds : NoEnds (run (init {}) (c09History.take 4)) [115] 1 ((c09History.drop 4).take 5) := by
+  decide
 
 end Mochi.Broker
